@@ -1209,7 +1209,20 @@ def ob_measure(d, r, form, su, m=None):
             return ~ex if isinstance(ex, SymBool) else (not ex)
         return False
     def witness():
-        return [{"rho": witness_density(d), "K": [witness_matrix(m, d, j) for j in range(r)]}]
+        out = [{"rho": witness_density(d), "K": [witness_matrix(m, d, j) for j in range(r)]}]
+        if m == d and r == d:
+            # a basis state measured in its own basis: non-zero operators whose outcome has probability exactly 0
+            # (documented post-measurement state: the zero matrix)
+            rho = np.zeros((d, d), dtype=complex)
+            rho[0, 0] = 1.0
+            Ks = []
+            for j in range(d):
+                P = np.zeros((d, d), dtype=complex)
+                P[j, j] = 1.0
+                Ks.append(P)
+            out.append({"rho": rho, "K": Ks})
+            out.append({"rho": rho, "K": Ks[::-1]})
+        return out
     return Obligation("measure.born_rule_post_state_total_and_guards", cfg, build, call, marker_oracle, post=post, neg=neg,
                       exc_post=exc_post, max_paths=600, weight=4 * r * d, tv=False, witness=witness)
 
